@@ -77,7 +77,7 @@ def sidecar_hash():
     return h.hexdigest()
 
 
-def write_replay(prop, clause, creport, contract, replay_src):
+def write_replay(prop, clause, creport, contract, replay_src, why=''):
     d = os.path.join(HERE, 'replays', prop)
     os.makedirs(d, exist_ok=True)
     safe = re.sub(r'[^A-Za-z0-9_.@-]+', '_', clause)[:150]
@@ -92,6 +92,7 @@ def write_replay(prop, clause, creport, contract, replay_src):
         if replay_src:
             f.write(replay_src)
         else:
+            f.write('# no native replay: %s\n' % why)
             f.write('import sys\nprint("no native replay is available for this obligation: no-failing-input-found")\nsys.exit(2)\n')
     return path
 
@@ -118,9 +119,9 @@ def main(argv=None):
     ap.add_argument('-v', action='store_true')
     a = ap.parse_args(argv)
     if a.replay:
-        rc, out = run_replay(a.replay)
-        print(out)
-        return 1 if rc == 1 else (0 if rc == 0 else 2)
+        load_contracts()
+        from pyvc import replay as _rp
+        return _rp.replay_file(a.replay, REPO)
     t0 = time.time()
     prop = a.prop
     seed = int(os.environ.get('VERIF_SEED', '0') or 0)
@@ -209,17 +210,31 @@ def finish(prop, a, dsl, reports, t0, seed, extra):
             known_hits.append((label, kmatch))
             continue
         src = None
-        if contract is not None and contract.replay is not None:
+        why = ''
+        from pyvc import replay as _rp
+        if contract is not None:
             try:
-                src = contract.replay(label, c.get('model') or {})
+                src = _rp.replay_source(contract, label, c.get('model') or {})
+            except _rp.NoReplay as e:
+                why = str(e)
             except Exception as e:
-                src = None
-        path = write_replay(prop, label, c, contract, src)
+                why = 'replay construction failed: %s: %s' % (e.__class__.__name__, e)
+        path = write_replay(prop, label, c, contract, src, why)
         reproduced = None
         out = ''
         if src:
-            rc, out = run_replay(path)
-            reproduced = (rc == 1)
+            try:
+                outcome, out = _rp.run_native(path, REPO)
+                if outcome is not None:
+                    holds = _rp.evaluate(contract, label, c.get('model') or {}, outcome)
+                    reproduced = (holds is False)
+                    with open(path, 'a') as f:
+                        f.write('\n# native outcome on %s: %s\n# clause %s on the real code\n' % (
+                            REPO, json.dumps(outcome)[:1500], {True: 'HOLDS', False: 'IS VIOLATED', None: 'could not be evaluated'}[holds]))
+            except Exception as e:
+                out = 'replay failed: %s: %s' % (e.__class__.__name__, e)
+                with open(path, 'a') as f:
+                    f.write('\n# %s\n' % out)
         violations.append((label, path, reproduced, c, out))
     # ---- ledger comparison
     ledger_missing = []
